@@ -22,8 +22,8 @@ LEVEL = 'exploration'
 PLAN = {'quick': [('edit', 15000)], 'thorough': [('edit', 1500000)]}
 TIMEOUT = {'quick': 900, 'thorough': 6 * 3600}
 RULE = ('each run: a seeded history of 4-16 operations over a set of live models (add '
-        'Constant/Operation/Prior/Simulator/Summary/Discrepancy/Distance with explicit or '
-        'name* names, positional node and constant parents; named (keyword) edges via add_edge; a.become(b) where defined; '
+        'Constant/Operation/Prior/Simulator/Summary/Discrepancy/Distance with explicit, '
+        'name* or no names (auto-named private `_class_xxxx` nodes), positional node and constant parents; named (keyword) edges via add_edge; a.become(b) where defined; '
         'remove_node of leaves and (1 in 4) of inner nodes; set parameter_names; set/delete observed data; set uses_meta; '
         'copy(); save()+load()), each operation applied to a tape-chosen party; after every '
         'step EVERY party is compared with its own reference graph (canonical form with private '
@@ -78,6 +78,27 @@ class RefModel:
     def descendants(self, name):
         return {n for n in self.nodes if name in self.ancestors(n)}
 
+    def remove(self, n):
+        """Remove n; the children lose that parent; private (underscore-named) positional
+        parents that are left with no edge at all go with it (GraphicalModel.remove_node)."""
+        pars = [p for k, p in self.nodes[n]['pos'] if k == 'n']
+        self.nodes.pop(n)
+        self.observed.pop(n, None)
+        for d_ in self.nodes.values():
+            if ('n', n) in d_['pos']:
+                if d_['pos'][-1] != ('n', n) or d_['pos'].count(('n', n)) > 1:
+                    d_['gapped'] = True
+                d_['pos'] = [e for e in d_['pos'] if e != ('n', n)]
+            for k_ in [k_ for k_, v_ in d_.get('named', {}).items() if v_ == n]:
+                del d_['named'][k_]
+        self.drop_isolated_private(pars)
+
+    def drop_isolated_private(self, names):
+        for p in names:
+            if p.startswith('_') and p in self.nodes and not self.children(p) and \
+                    not self.nodes[p]['pos'] and not self.nodes[p].get('named'):
+                self.remove(p)
+
     def canon(self):
         return ({n: (d['cls'], d['op'], tuple(d['pos']), bool(d['param']), bool(d['meta']),
                      tuple(sorted(d.get('named', {}).items())))
@@ -90,12 +111,21 @@ class RefModel:
 GAPS = set()
 
 
-def real_canon(model):
+def is_private_const(model, n, known=()):
+    """Underscore names are ELFI's private nodes: the constants it creates for literal parents
+    (`_<child>_<random>`) and nodes that were created without a name (auto-named
+    `_simulator_<random>`, ...).  `known` = the auto-named nodes the reference model holds (one
+    of them may have become a Constant, so the class alone does not tell them apart)."""
+    return n.startswith('_') and n not in known and \
+        model.get_state(n)['attr_dict']['_class'].__name__ == 'Constant'
+
+
+def real_canon(model, known=()):
     """Canonical form of a real ElfiModel read through its public surface."""
     net = model.source_net
     nodes = {}
     for n in model.nodes:
-        if n.startswith('_'):
+        if is_private_const(model, n, known):
             continue
         st = model.get_state(n)['attr_dict']
         cls = st['_class'].__name__
@@ -114,7 +144,7 @@ def real_canon(model):
             op = getattr(o, 'key', repr(type(o)))
         pos = []
         for p in model.get_parents(n):
-            if p.startswith('_'):
+            if is_private_const(model, p, known):
                 pst = model.get_state(p)['attr_dict']
                 pos.append(('c', sp.dg(pst['_output'])))
             else:
@@ -133,7 +163,7 @@ def real_canon(model):
     return nodes, obs
 
 
-def consistent(model):
+def consistent(model, known=()):
     net = model.source_net
     if not nx.is_directed_acyclic_graph(net):
         return 'cycle'
@@ -143,7 +173,7 @@ def consistent(model):
             return 'dangling-edge'
     # private constants must have a child; observed data must belong to a node
     for n in net.nodes:
-        if n.startswith('_') and net.degree(n) == 0:
+        if net.degree(n) == 0 and is_private_const(model, n, known):
             return 'orphan-private-constant'
     for k in model.observed:
         if k not in net.nodes:
@@ -235,6 +265,12 @@ def _run(tape, out, elfi, root):
             if not parents:
                 cls = 'Operation'
         args = [m[p] if k == 'n' else p for k, p in parents]
+        # a node created without a name (inline, or where name inspection fails) is auto-named
+        # `_<class>_<random>`: a private node that can hold observed data like any other
+        auto = cls in ('Operation', 'Simulator', 'Summary') and bool(parents) and \
+            tape.chance('auto_named', 1, 6)
+        if auto:
+            name, star = None, False
         meta = False
         if cls == 'Constant':
             val = float(tape.int('const_value', 1, 20)) * 0.25
@@ -261,6 +297,10 @@ def _run(tape, out, elfi, root):
                 op = o.key
             pos = [(k, p if k == 'n' else sp.dg(p)) for k, p in parents]
         real_name = node.name
+        if auto:
+            out.probes['auto_named_private_node'] += 1
+            if not real_name.startswith('_'):
+                raise RuntimeError('auto-naming gave %r (harness assumption)' % real_name)
         if star and not real_name.startswith(base + '_'):
             out.violate('consistent-dag', 'star-name', name=real_name)
         if real_name in r.nodes:
@@ -288,11 +328,13 @@ def _run(tape, out, elfi, root):
             return None
         a, b = cands[tape.int('become_pair', 0, len(cands) - 1)]
         m[a].become(m[b])
+        old_pars = [p for k, p in r.nodes[a]['pos'] if k == 'n']
         nb = r.nodes.pop(b)
         r.nodes[a] = nb
         r.observed.pop(a, None)
         if b in r.observed:
             r.observed[a] = r.observed.pop(b)
+        r.drop_isolated_private(old_pars)
         return 'become'
 
     def remove(P):
@@ -305,23 +347,14 @@ def _run(tape, out, elfi, root):
             # legitimate for them from now on)
             n = tape.choice('remove_inner', inner)
             m.remove_node(n)
-            r.nodes.pop(n)
-            r.observed.pop(n, None)
-            for d_ in r.nodes.values():
-                if ('n', n) in d_['pos']:
-                    if d_['pos'][-1] != ('n', n) or d_['pos'].count(('n', n)) > 1:
-                        d_['gapped'] = True
-                    d_['pos'] = [e for e in d_['pos'] if e != ('n', n)]
-                for k_ in [k_ for k_, v_ in d_.get('named', {}).items() if v_ == n]:
-                    del d_['named'][k_]
+            r.remove(n)
             out.probes['inner_node_removed'] += 1
             return 'remove-inner'
         if not leaves:
             return None
         n = tape.choice('remove', leaves)
         m.remove_node(n)
-        r.nodes.pop(n)
-        r.observed.pop(n, None)
+        r.remove(n)
         return 'remove'
 
     def set_params(P):
@@ -450,12 +483,12 @@ def _run(tape, out, elfi, root):
                 out.probes['mutation_with_other_parties_alive'] += 1
         # ---- inspect EVERY party
         for Q in parties:
-            bad = consistent(Q.model)
+            bad = consistent(Q.model, Q.ref.nodes)
             if bad:
                 out.violate('consistent-dag', bad, step=step, op=done, party=Q.role)
                 return
             GAPS.clear()
-            rn, ro = real_canon(Q.model)
+            rn, ro = real_canon(Q.model, Q.ref.nodes)
             en, eo = Q.ref.canon()
             unexpected = [n_ for (_, n_) in GAPS if not Q.ref.nodes.get(n_, {}).get('gapped')]
             if unexpected:
